@@ -3,9 +3,11 @@ From NV Require Import Base ClientLTS.
 
 (* (client kind, labelled trace of one session of a real client on the virtual loop):
    accepted by the LTS of the REPAIRED code, every snapshot matching *)
-Definition chk_trace (c : kind * list label) : bool := lts_accepts (fst c) true true true true true (snd c).
+Definition chk_trace (c : kind * list label) : bool := lts_accepts (fst c) false true true true true true (snd c).
+(* the same for a client constructed with build_network_map=True whose class seeds the map: connect() creates seeding tasks *)
+Definition chk_trace_seeding (c : kind * list label) : bool := lts_accepts (fst c) true true true true true true (snd c).
 (* diagnostic: how many labels are accepted before the first rejection *)
-Definition prefix_len (c : kind * list label) : nat := fst (accepted_prefix (fst c) true true true true true init (snd c) 0).
+Definition prefix_len (c : kind * list label) : nat := fst (accepted_prefix (fst c) false true true true true true init (snd c) 0).
 
 (* corr_retry: (attempt number, 2 * wait_exponential(multiplier=0.5, max=10)(attempt)) *)
 Definition chk_wait (c : Z * Z) : bool := wait2 (fst c) =? snd c.
